@@ -23,7 +23,7 @@ DIRK = {'forward': 'Forward', 'adjoint': 'Adjoint'}
 
 
 def translate():
-    return {'Gen/Padding.v': T.translate()}
+    return {'Gen/Padding.v': T.translate(), 'Gen/ResizeDiscr.v': T.translate_discr()}
 
 
 def impl_resize(arr, newshp, off, mode, c, direction):
@@ -37,19 +37,7 @@ def impl_resize(arr, newshp, off, mode, c, direction):
         return 'IOtherErr'
 
 
-def measured_strict():
-    """Does resize_array validate the offset range (proposed fix for finding
-    offset-out-of-range-accepted)?  Measured on the finding's own replay input."""
-    from odl.util.numerics import resize_array
-    try:
-        resize_array([5], (4,), offset=-3)
-        return False
-    except ValueError:
-        return True
-
-
 def cases_1d(rng, tier):
-    strict = measured_strict()
     cs = C.CaseSet('resize1d', ['C16.Syntax', 'Gen.Padding', 'C16.Model', 'C16.Corr'], 'check1', 'case1')
     nmax, mmax = (5, 7) if tier == "quick" else (8, 13)
     for mode, d in itertools.product(MODES, DIRS):
@@ -65,9 +53,9 @@ def cases_1d(rng, tier):
                     c = rng.choice([0, 0, 3])
                 cast = bool(np.can_cast(c, arr.dtype))
                 out = impl_resize(arr, (m,), None if (off == 0 and rng.random() < 0.4) else off, mode, c, d)
-                term = ('{| k_strict := %s; k_m := %s; k_d := %s; k_c := %s; k_cast := %s; k_arr := %s; k_nout := %s; '
+                term = ('{| k_m := %s; k_d := %s; k_c := %s; k_cast := %s; k_arr := %s; k_nout := %s; '
                         'k_off := %s; k_out := %s |}'
-                        % (C.b(strict), T.PMODE[mode], DIRK[d], C.q(c), C.b(cast), C.qs(arr.tolist()), C.nat(m), C.z(off), out))
+                        % (T.PMODE[mode], DIRK[d], C.q(c), C.b(cast), C.qs(arr.tolist()), C.nat(m), C.z(off), out))
                 key = ((mode, d, n, m, off, c, dt.__name__, tuple(arr.tolist()))
                        if (arr.any() or out.startswith('IValueErr')) else None)
                 cs.add(term, {'mode': mode, 'direction': d, 'arr': arr.tolist(), 'dtype': dt.__name__,
@@ -89,9 +77,9 @@ def cases_1d(rng, tier):
             except Exception:
                 outs = ('IOtherErr', 'IOtherErr')
             for part, arr, cc, o in (('re', re, c, outs[0]), ('im', im, 0, outs[1])):
-                term = ('{| k_strict := %s; k_m := %s; k_d := %s; k_c := %s; k_cast := true; k_arr := %s; k_nout := %s; '
+                term = ('{| k_m := %s; k_d := %s; k_c := %s; k_cast := true; k_arr := %s; k_nout := %s; '
                         'k_off := %s; k_out := %s |}'
-                        % (C.b(strict), T.PMODE[mode], DIRK[d], C.q(cc), C.qs(arr.tolist()), C.nat(m), C.z(off), o))
+                        % (T.PMODE[mode], DIRK[d], C.q(cc), C.qs(arr.tolist()), C.nat(m), C.z(off), o))
                 cs.add(term, {'mode': mode, 'direction': d, 'arr': arr.tolist(), 'dtype': 'complex/' + part,
                               'newshp': m, 'offset': off, 'pad_const': cc},
                        (mode, d, n, m, off, cc, 'complex', part, tuple(arr.tolist())) if arr.any() or o == 'IValueErr' else None)
@@ -103,7 +91,6 @@ def _legal_off(rng, n, m):
 
 
 def cases_nd(rng, tier):
-    strict = measured_strict()
     cs = C.CaseSet('resizeNd', ['C16.Syntax', 'Gen.Padding', 'C16.Model', 'C16.ModelNd', 'C16.Corr'],
                    'checkN', 'caseN')
     nper = 40 if tier == "quick" else 300
@@ -142,9 +129,9 @@ def cases_nd(rng, tier):
                 c = 0
             cast = bool(np.can_cast(c, arr.dtype))
             out = impl_resize(arr, tuple(osh), offs, mode, c, d)
-            term = ('{| n_strict := %s; n_m := %s; n_d := %s; n_c := %s; n_cast := %s; n_ishape := %s%%nat; n_arr := %s; '
+            term = ('{| n_m := %s; n_d := %s; n_c := %s; n_cast := %s; n_ishape := %s%%nat; n_arr := %s; '
                     'n_oshape := %s%%nat; n_offs := %s%%Z; n_out := %s |}'
-                    % (C.b(strict), T.PMODE[mode], DIRK[d], C.q(c), C.b(cast), C.nats(ish), C.qs(arr.ravel().tolist()),
+                    % (T.PMODE[mode], DIRK[d], C.q(c), C.b(cast), C.nats(ish), C.qs(arr.ravel().tolist()),
                        C.nats(osh), C.zs(offs), out))
             key = ((mode, d, tuple(ish), tuple(osh), tuple(offs), c, dt.__name__, tuple(arr.ravel().tolist()))
                    if (arr.any() or out.startswith('IValueErr')) else None)
@@ -152,19 +139,6 @@ def cases_nd(rng, tier):
                           'dtype': dt.__name__, 'pad_const': c, 'arr': arr.tolist(),
                           'outcome': out[:10]}, key)
     return cs
-
-
-def measured_fixed():
-    """Which sign convention _resize_discr uses for a restriction with an explicit offset
-    (finding range-restrict-explicit-offset): False = as coded (range left of the domain),
-    True = repaired (range inside the domain)."""
-    import odl
-    X = odl.uniform_discr(0, 1, 10)
-    try:
-        lo = float(odl.ResizingOperator(X, ran_shp=(6,), offset=2).range.min_pt[0])
-    except Exception:
-        return False
-    return abs(lo - 0.2) < 1e-9
 
 
 def measured_adjguard():
@@ -192,7 +166,6 @@ def cases_op(rng, tier):
     import odl
     cs = C.CaseSet('resizing_op', ['C16.Syntax', 'Gen.Padding', 'C16.Model', 'C16.ModelNd', 'C16.ModelOp',
                                    'C16.Corr'], 'checkOp', 'caseOp')
-    fixed = measured_fixed()
     adjguard = measured_adjguard()
     nper = 30 if tier == "quick" else 200
     for mode in MODES:
@@ -243,10 +216,10 @@ def cases_op(rng, tier):
             R = op.range
             doms = C.lst(dom, lambda d: '(%s, %s, %s%%Z, (%s, %s))' % (C.q(d[0]), C.q(d[1]), C.z(d[2]),
                                                                     C.b(d[3][0]), C.b(d[3][1])))
-            term = ('{| o_fixed := %s; o_adjguard := %s; o_m := %s; o_c := %s; o_dom := %s; o_nnew := %s%%Z; o_off := %s; '
+            term = ('{| o_adjguard := %s; o_m := %s; o_c := %s; o_dom := %s; o_nnew := %s%%Z; o_off := %s; '
                     'o_flags := %s; o_rmin := %s; o_rmax := %s; o_rcs := %s; o_offset := %s%%Z; o_islinear := %s; o_axes := %s%%nat; '
                     'o_x := %s; o_fx := %s; o_y := %s; o_ay := %s; o_inv := %s |}'
-                    % (C.b(fixed), C.b(adjguard and not (op.domain.is_uniformly_weighted and op.range.is_uniformly_weighted)),
+                    % (C.b(adjguard and not (op.domain.is_uniformly_weighted and op.range.is_uniformly_weighted)),
                        T.PMODE[mode], C.q(c), doms, C.zs(nnew),
                        C.lst(offs, lambda o: 'None' if o is None else '(Some %s%%Z)' % C.z(o)),
                        C.lst(kw_flags, lambda f: '(%s, %s)' % (C.b(f[0]), C.b(f[1]))),
@@ -751,8 +724,8 @@ LEVEL_TEXT = ('Proof: for the slice arithmetic and legality guards regenerated f
               'lengths outside the documented limits, (c) has an adjoint direction that is the exact transpose '
               '(<Rx,y> = <x,R^T y>), (d) crop after extend is the identity; and for the range built by ResizingOperator: '
               'unchanged cell sides, the interval enlarged by exactly the added cells, offset recovered from the grids. '
-              'One clause is proved FALSE of the code as it stands (restriction with explicit offset misplaces the range) '
-              'and proved for the repaired sign convention. N-d (per-axis loop with working slices, mixed grow/shrink) and '
+              'Offsets outside 0..|delta| are proved to be rejected and a restriction with explicit offset is proved to have the '
+              'sub-interval as range (both were findings, repaired in /repo; their decision code is regenerated too). N-d (per-axis loop with working slices, mixed grow/shrink) and '
               'the operator wrapper are tied by exact in-Coq correspondence, and the N-d array is also checked to equal the '
               'composition of the proved 1-d maps along the axes; the N-d lift itself is validated, not proved.')
 LEVEL_NOTE = ('Trusted: the translator (fail-closed, small grammar), the hand-written Python-slice semantics / NumPy 1-d '
